@@ -69,6 +69,18 @@ def fam_shared_variable(xs, ys, k, shared):
     return [q0, q1], [mk0, mk1], lambda r: (index_of(xs, r),)
 
 
+def fam_shared_lazy_variable(xs, ys, k, shared):
+    """the shared variable's domain is a generator: it is pulled lazily and cached while both evaluations are alive"""
+    x = let(P, (p for p in xs), name="x")
+    q0 = an(entity(x, x.a > k[0]))
+    q1 = an(entity(x, x.b > k[1]))
+    def mk0():
+        x_ = let(P, (p for p in xs), name="x"); return an(entity(x_, x_.a > k[0]))
+    def mk1():
+        x_ = let(P, (p for p in xs), name="x"); return an(entity(x_, x_.b > k[1]))
+    return [q0, q1], [mk0, mk1], lambda r: (index_of(xs, r),)
+
+
 def fam_shared_subexpression(xs, ys, k, shared):
     x = let(P, xs, name="x")
     c = x.a > k[0]
@@ -138,6 +150,7 @@ FAMILIES = {
     "one-query-twice": fam_one_query,
     "two-variable-query-twice": fam_two_var_query,
     "two-queries-sharing-a-variable": fam_shared_variable,
+    "two-queries-sharing-a-lazily-produced-domain": fam_shared_lazy_variable,
     "two-queries-sharing-a-subexpression": fam_shared_subexpression,
     "exists-query-twice": fam_exists,
     "forall-query-twice": fam_forall,
@@ -158,7 +171,7 @@ def _run_isolated(mk, norm):
         return None, type(e).__name__
 
 
-def harness(fam, L, N, mode):
+def harness(fam, L, N, mode, prefix=()):
     """mode: 'schedule' = symbolic interleaving of start/next/abandon; 'sequential' = run 0 fully, then 1 fully, then 0 again;
        'nested' = evaluation 1 completely inside each step of evaluation 0"""
     f = FAMILIES[fam]
@@ -193,8 +206,16 @@ def harness(fam, L, N, mode):
             else:  # the(...) evaluates eagerly
                 iters.append([i, None, [norm(r)], "done"])
 
+        advanced = set()
+        flags = {}
+
         def step(j):
             it = iters[j]
+            # is another evaluation of the very same query object in progress (advanced and not finished)?
+            for jj, other in enumerate(iters):
+                if jj != j and queries[other[0]] is queries[it[0]] and other[3] == "live" and jj in advanced:
+                    flags["interleaved"] = True
+            advanced.add(j)
             try:
                 it[2].append(norm(next(it[1])))
             except StopIteration:
@@ -205,15 +226,23 @@ def harness(fam, L, N, mode):
         if mode == "schedule":
             for s in range(L):
                 live = [j for j, it in enumerate(iters) if it[3] == "live"]
-                opts = [("start", i) for i in range(len(queries)) if len(iters) < 3] + [("next", j) for j in live] + [("abandon", j) for j in live]
+                opts = [("start", i) for i in range(len(queries)) if len(iters) < 3] + [("next", j) for j in live] + [("abandon", j) for j in live] + [("drain", j) for j in live]
+                if prefix and s >= len(prefix):
+                    opts = [o for o in opts if o[0] in ("next", "drain")]
                 if not opts:
                     break
-                op = opts[ctx.choice("s%d" % s, len(opts))]
+                if s < len(prefix):
+                    op = prefix[s]
+                else:
+                    op = opts[ctx.choice("s%d" % s, len(opts))]
                 trace.append(op)
                 if op[0] == "start":
                     start(op[1])
                 elif op[0] == "next":
                     step(op[1])
+                elif op[0] == "drain":  # consume the rest of the iterator in one step
+                    while iters[op[1]][3] == "live":
+                        step(op[1])
                 else:
                     iters[op[1]][3] = "abandoned"
         elif mode == "sequential":
@@ -243,9 +272,10 @@ def harness(fam, L, N, mode):
                 ok_final.append(outs == exp)
         ctx.observe(trace, [(i, outs, state) for i, it, outs, state in iters])
         ctx.note("nonempty", any(outs for _, _, outs, _ in iters))
-        v["every-evaluation-is-a-prefix-of-its-isolated-result"] = all(ok_prefix)
-        v["exhausted-evaluations-equal-their-isolated-result"] = all(ok_final)
-        v["same-exceptions-as-in-isolation"] = all(ok_exc)
+        sfx = "[one-query-object-advanced-while-another-evaluation-of-it-is-in-progress]" if flags.get("interleaved") else ""
+        v["every-evaluation-is-a-prefix-of-its-isolated-result" + sfx] = all(ok_prefix)
+        v["exhausted-evaluations-equal-their-isolated-result" + sfx] = all(ok_final)
+        v["same-exceptions-as-in-isolation" + sfx] = all(ok_exc)
         return v
 
     return h
@@ -260,15 +290,20 @@ def cases(tier, seed):
             nm = "%s|%s" % (fam, mode)
             cs.append(Case(nm + ("|L=%d" % L if mode == "schedule" else ""), harness(fam, L, N, mode), key=nm, reset=eql_reset, validate=1,
                            timeout=400 if tier == "quick" else 2400, max_paths=150000 if tier == "quick" else 2000000, cex_grace=10**9))
+    # both evaluations requested first, then L symbolic next / drain steps
+    for fam in ("two-queries-sharing-a-lazily-produced-domain", "rule-with-refinement-twice"):
+        nm = "%s|schedule after both were requested" % fam
+        cs.append(Case(nm + "|L=2+%d" % L, harness(fam, L + 2, N, "schedule", prefix=(("start", 0), ("start", 1))), key=nm, reset=eql_reset, validate=1,
+                       timeout=400 if tier == "quick" else 2400, max_paths=150000 if tier == "quick" else 2000000, cex_grace=10**9))
     return cs
 
 
 def describe(tier):
     L = 4 if tier == "quick" else 7
     return dict(
-        rule="scenario family (one query twice; two-variable query; two queries sharing a variable; sharing a sub-expression; exists; for_all; the() then an(); "
+        rule="scenario family (one query twice; two-variable query; two queries sharing a variable; sharing a variable whose domain is a generator; sharing a sub-expression; exists; for_all; the() then an(); "
         "rule query; rule query with refinement) x mode (sequential 0,1,0; evaluation 1 nested inside every step of evaluation 0; a symbolic schedule of <= %d "
-        "steps over start(q_i) / next(it_j) / abandon(it_j) with <= 3 iterators); attribute values symbolic; the reference for every evaluation is the result of "
+        "steps over start(q_i) / next(it_j) / drain(it_j) (consume the rest) / abandon(it_j) with <= 3 iterators); attribute values symbolic; the reference for every evaluation is the result of "
         "a fresh, structurally identical query over the same objects run alone; non-trivial = >= 2 feasible paths and some output" % L,
         bounds=dict(schedule_length=L, iterators="<= 3", objects_per_domain=2, values="unbounded integers"),
         outside=["threads (the property speaks of interleavings of next() steps)", "more than 3 live iterators", "longer schedules"],
